@@ -383,6 +383,26 @@ func (g *tkGen) issue() (rig.Tx, bool) {
 	return g.mk(a, tag, msg)
 }
 
+// issueShadow issues a token whose symbol is the min unit of an existing token (the two namespaces are separate, so
+// this is legal): every later operation naming that min unit must still mean the older token.
+func (g *tkGen) issueShadow() (rig.Tx, bool) {
+	rng := g.rng
+	a := g.anyAcc()
+	if a == nil {
+		return rig.Tx{}, false
+	}
+	for _, i := range rng.Perm(len(g.s.Tokens)) {
+		t := g.s.Tokens[i]
+		if g.s.bySymbol(t.MinUnit) != nil || tokentypes.ValidateSymbol(t.MinUnit) != nil {
+			continue
+		}
+		tag := &tkTag{Kind: "issue", Role: "stranger", Var: "cross-symbol-is-others-minunit", Sym: t.MinUnit}
+		msg := &v1.MsgIssueToken{Symbol: t.MinUnit, Name: "shadow", Scale: uint32(rng.Intn(19)), MinUnit: "msh" + g.fresh(5), InitialSupply: uint64(1_000_000 + rng.Intn(1_000_000)), MaxSupply: 0, Mintable: true, Owner: a.Addr.String()}
+		return g.mk(a, tag, msg)
+	}
+	return rig.Tx{}, false
+}
+
 // issueDup re-issues a taken symbol and/or min unit, by anyone.
 func (g *tkGen) issueDup() (rig.Tx, bool) {
 	rng := g.rng
@@ -848,6 +868,8 @@ func (g *tkGen) make(kind string) (rig.Tx, bool) {
 		return g.issue()
 	case "issue-dup":
 		return g.issueDup()
+	case "issue-shadow":
+		return g.issueShadow()
 	case "mint":
 		return g.mint(false)
 	case "mint-hostile":
@@ -1626,9 +1648,10 @@ func (g *tkGen) toERC20() (rig.Tx, bool) {
 func (g *tkGen) fromERC20() (rig.Tx, bool) {
 	rng := g.rng
 	type hold struct {
-		a *rig.Account
-		t *v1.Token
-		b *big.Int
+		a      *rig.Account
+		t      *v1.Token
+		b      *big.Int
+		shadow bool
 	}
 	var hs []hold
 	for i := range g.s.Tokens {
@@ -1641,7 +1664,11 @@ func (g *tkGen) fromERC20() (rig.Tx, bool) {
 				continue
 			}
 			if b := g.erc20Bal(t.Contract, a.Addr); b.Sign() > 0 || (g.hostile && rng.Intn(25) == 0) {
-				hs = append(hs, hold{a, t, b})
+				hs = append(hs, hold{a, t, b, false})
+				// the holder of a token whose symbol is another token's min unit asks for that other token by its min unit
+				if o := g.s.byMinUnit(t.Symbol); o != nil && b.Sign() > 0 {
+					hs = append(hs, hold{a, o, b, true})
+				}
 			}
 		}
 	}
@@ -1663,6 +1690,10 @@ func (g *tkGen) fromERC20() (rig.Tx, bool) {
 	}
 	if h.b.Sign() == 0 {
 		tag.Var = "no-erc20-balance"
+	}
+	if h.shadow {
+		tag.Var += "/holds-the-token-whose-symbol-is-this-min-unit"
+		g.run.Count("from-erc20-asked-by-shadowed-min-unit", 1)
 	}
 	var rcv string
 	switch k := rng.Intn(10); {
@@ -1938,11 +1969,11 @@ func runTokenERC20(run *ev.Run, c int) {
 	d.installOps()
 	blocks := tierN(run.Tier, 160, 600)
 	script := [][]string{
-		{"erc20-switch", "issue", "issue", "issue"}, {"issue", "issue", "send", "send"}, {"deploy", "deploy", "send"}, {"deploy", "to-erc20", "to-erc20"},
+		{"erc20-switch", "issue", "issue", "issue"}, {"issue", "issue-shadow", "issue-shadow", "send", "send"}, {"deploy", "deploy", "send"}, {"deploy", "to-erc20", "to-erc20"},
 		{"to-erc20", "to-erc20", "from-erc20"}, {"deploy-hostile", "from-erc20", "hook"},
 	}
-	kinds := []string{"to-erc20", "from-erc20", "hook", "deploy", "deploy-hostile", "erc20-switch", "issue", "send", "mint", "burn"}
-	weights := []int{30, 28, 12, 4, 4, 4, 2, 5, 3, 2}
+	kinds := []string{"to-erc20", "from-erc20", "hook", "deploy", "deploy-hostile", "erc20-switch", "issue", "send", "mint", "burn", "issue-shadow"}
+	weights := []int{30, 28, 12, 4, 4, 4, 2, 5, 3, 2, 1}
 	for b := 0; b < blocks; b++ {
 		g.begin()
 		var txs []rig.Tx
